@@ -16,6 +16,7 @@ import CamVerif.Proofs.C02
 import CamVerif.Proofs.C02Bits
 import CamVerif.Proofs.C02Kernel
 import CamVerif.Props.C01
+import CamVerif.Proofs.C02GenTie
 namespace CamVerif.C02
 open CamVerif CamVerif.Reg CamVerif.BitMask CamVerif.Spec.Codec CamVerif.Proofs.C02
 open CamVerif.Proofs.C01 (afterRead afterWrite)
@@ -858,5 +859,10 @@ theorem siblings_on_device_spec (p : Profile) (port : Port) (hp : port.hasChunkI
   | none =>
     simp only [expected, expectedInt, toField]
     rw [Proofs.C02K.specExtract_toInt _ _ _ _ hle hlt, regWord_toNat e address n wf.1 d]
+
+/-- **gen_fn_tie** (tie by regeneration, function bodies): the Lean functions that `rs2lean`
+re-translates from the CURRENT Rust source on every run (FnBitMask) are equal, for every input and both
+build profiles, to the hand-written model functions the theorems above are about. -/
+theorem gen_fn_tie : CamVerif.Proofs.C02GenTie.GenTie := CamVerif.Proofs.C02GenTie.gen_tie
 
 end CamVerif.C02
